@@ -48,11 +48,11 @@ def gen(tier, seed):
     rng = random.Random(seed * 601 + 10)
     tg = TX.TG(rng, annot_p=0.3, shared_p=0.3, suffix_p=0.2)
     cases = []
-    n = 900 if tier == "quick" else 20000
+    n = 900 if tier == "quick" else 6000
     for _ in range(n):
         cases.append(("junk", junk(rng)))
     valid = []
-    for _ in range(60 if tier == "quick" else 1500):
+    for _ in range(60 if tier == "quick" else 400):
         p = tg.stmt(rng.choice([0, 1, 2, 3]), maxleaves=3)
         valid.append(TX.r_stmt(p))
     for v in valid:
